@@ -153,6 +153,8 @@ fn get_disambiguating_chars(
         (true, true) => to_algebraic(chess_move.from_square()).to_string(),
         (true, false) => starting_rank_char.to_string(),
         (false, true) => starting_file_char.to_string(),
+        // No other piece shares the file or the rank: the file alone tells them apart (eg. Nbd2 vs Nfd2)
+        (false, false) if !ambiguous_moves.is_empty() => starting_file_char.to_string(),
         (false, false) => EMPTY_STRING.to_string(),
     }
 }
